@@ -111,12 +111,12 @@ def handle_disconnect_contract(world, target):
 
     def unknown_post(c):
         # the statement: "the disconnect handler runs exactly once for each namespace that was connected" -> nothing runs here
-        return {'no-handler-runs-for-a-namespace-that-is-not-connected': sv_equiv(c.post.get(*DISP), c.pre.get(*DISP)),
+        return {'no-handler-runs-for-a-namespace-that-is-not-connected@C08': sv_equiv(c.post.get(*DISP), c.pre.get(*DISP)),
                 'namespaces-unchanged': sv_equiv(nss(c.post), nss(c.pre)),
                 'connected-flag': connected(c.post) == z3.Not(nss(c.pre).c['dom'] == z3.K(V, z3.BoolVal(False)))}
 
     def unknown_residual(c):
-        return {'no-handler-runs-for-a-namespace-that-is-not-connected': z3.BoolVal(True)}
+        return {'no-handler-runs-for-a-namespace-that-is-not-connected@C08': z3.BoolVal(True)}
     return Contract(
         target=target, schema=world, self_obj='client', params={'namespace': 'V'},
         requires=lambda c: dict(base_req(c), **{'dom.ns-not-star': ns_(c) != c13.STAR}),
